@@ -224,6 +224,7 @@ func dedup(s []string) []string {
 }
 
 func TestReplay(t *testing.T) {
+	replayLib(t)
 	for _, path := range evid.ReplayFiles("c11") {
 		var c Case
 		if _, err := evid.ReadFailure(path, &c); err != nil {
